@@ -30,12 +30,121 @@ func runC16(c *Ctx) {
 	c.rule("Y4", "immutable cache: entry directories are listed only through listCompleteFilesByModTime, which uses an item only where both the .part and the .hash tests are false", 3)
 	c.rule("Y5", "TransferFiles returns success only where hash(source) equals a recomputed (forced) hash of the destination", 2)
 	c.rule("Y6", "unpackPackageToLocalDestination unzips the verified temporary copy returned by TransferFiles, after it succeeded", 1)
+	c.rule("Y8", "getHash hands back the content of the .hash side file only where its length equals the digest length (or does not ignore the outcome of writing it)", 1)
 	c.rule("Y7", "Fetch/Store report the failure of the work they did: no deferred literal overwrites the error result unconditionally", 4)
 
 	c.c16Typestate()
 	c.c16Immutable()
 	c.c16Transfer()
 	c.c16ErrorKept()
+	c.c16SideFile()
+}
+
+// c16SideFile (Y8): "a Store that reports success makes its version the one that Fetches return … even if
+// individual filesystem operations failed while it ran". getHash records the digest in a side file and ignores
+// the outcome of that write; the next reader therefore must not trust the side file blindly: what it read is
+// handed back only where its length equals the digest length — or else the write must not be ignored.
+func (c *Ctx) c16SideFile() {
+	f := c.fn(scPkg, "getHash")
+	c.FuncsSeen[fname(f)] = true
+	key := fname(f) + "/side-file-validated"
+	var read, write *ssa.Call
+	allInstrs(f, func(in ssa.Instruction) {
+		if cl, ok := in.(*ssa.Call); ok && cl.Call.IsInvoke() {
+			switch cl.Call.Method.Name() {
+			case "ReadFile":
+				read = cl
+			case "WriteFile", "WriteToFile", "WriteFileWithContext":
+				write = cl
+			}
+		}
+	})
+	if read == nil {
+		c.ok("Y8", key, c.pos(f.Pos()), "the side file is never read back: the digest is always recomputed")
+		return
+	}
+	writeChecked := false
+	if write != nil && write.Referrers() != nil {
+		for _, r := range *write.Referrers() {
+			if _, isDbg := r.(*ssa.DebugRef); !isDbg {
+				writeChecked = true
+			}
+		}
+	}
+	fromSide := func(v ssa.Value) bool {
+		for _, l := range sources(v, deriveOpts{through: func(n string) bool { return strings.HasPrefix(n, "strings.") || strings.HasPrefix(n, "bytes.") }}) {
+			if ex, ok := l.(*ssa.Extract); ok && ex.Tuple == ssa.Value(read) && ex.Index == 0 {
+				return true
+			}
+		}
+		return false
+	}
+	bad := ""
+	for _, b := range f.Blocks {
+		r, ok := b.Instrs[len(b.Instrs)-1].(*ssa.Return)
+		if !ok || len(r.Results) == 0 || !fromSide(r.Results[0]) {
+			continue
+		}
+		// only values that can actually be the side file's content along this return
+		guarded := onBoolSide(r, true, func(v ssa.Value) bool {
+			cmp, ok := v.(*ssa.BinOp)
+			if !ok || cmp.Op != token.EQL {
+				return false
+			}
+			k, isC := constInt(cmp.Y)
+			ln, isLen := cmp.X.(*ssa.Call)
+			if !isC || k <= 0 || !isLen {
+				return false
+			}
+			if bi, isB := ln.Call.Value.(*ssa.Builtin); !isB || bi.Name() != "len" {
+				return false
+			}
+			return fromSide(ln.Call.Args[0])
+		})
+		if !guarded {
+			// a merge point: accept when every edge carrying side-file content is guarded
+			if phi, isPhi := r.Results[0].(*ssa.Phi); isPhi && phi.Block() == b {
+				all := true
+				for i, e := range phi.Edges {
+					if !fromSide(e) {
+						continue
+					}
+					pb := b.Preds[i]
+					okEdge := false
+					if len(pb.Instrs) > 0 {
+						okEdge = onBoolSide(pb.Instrs[len(pb.Instrs)-1], true, func(v ssa.Value) bool {
+							cmp, ok := v.(*ssa.BinOp)
+							if !ok || cmp.Op != token.EQL {
+								return false
+							}
+							k, isC := constInt(cmp.Y)
+							ln, isLen := cmp.X.(*ssa.Call)
+							if !isC || k <= 0 || !isLen {
+								return false
+							}
+							bi, isB := ln.Call.Value.(*ssa.Builtin)
+							return isB && bi.Name() == "len" && fromSide(ln.Call.Args[0])
+						})
+					}
+					if !okEdge {
+						all = false
+					}
+				}
+				guarded = all
+			}
+		}
+		if !guarded {
+			bad = c.ipos(r)
+		}
+	}
+	switch {
+	case bad == "":
+		c.ok("Y8", key, c.ipos(read), "content of the side file is handed back only where its length equals the digest length")
+	case writeChecked:
+		c.ok("Y8", key, c.ipos(read), "the side file is trusted as read, and the outcome of writing it is not ignored")
+	default:
+		c.violate("Y8", key, bad, "the content of the .hash side file is returned without its length having been compared with the digest length, while the write of that file ignores its outcome ("+c.iposOr(write)+"): a short or failed write during a Store that reports success leaves a truncated digest which every later Fetch then trusts and fails on (hash mismatch) until the next Store")
+	}
 }
 
 // Y7: the error of the work done by Fetch/Store reaches the caller: no deferred
